@@ -38,6 +38,13 @@ func (ps *pubsub) Emit(key string) {
 	}
 }
 
+// Emitted reports whether key has been emitted.
+func (ps *pubsub) Emitted(key string) bool {
+	ps.mu.RLock()
+	defer ps.mu.RUnlock()
+	return ps.visited[key]
+}
+
 func (ps *pubsub) Wait(key string) {
 	select {
 	case <-ps.ctx.Done():
